@@ -8,7 +8,7 @@
    [load] = the loader's classification at restart; [serves_all] = every document is served, from
    intact .docs/.meta or through a complete index over the document file it was built for. *)
 From Coq Require Import Lia.
-From C08 Require Import Model CaseDefs ProofsA ProofsB ProofsC ProofsD.
+From C08 Require Import Model ModelGen CaseDefs ProofsA ProofsB ProofsC ProofsD ProofsFS ProofsGen ProofsH.
 
 (* Crash at any point of a seal (fault-free or with any write fault), the interrupted write torn
    at any length, then any power loss: the restarted store serves every document, and the directory
@@ -188,3 +188,157 @@ Proof. split. { left. split; [reflexivity|simpl; lia]. } vm_compute. repeat spli
 Example C08_fault_not_published_v0_refuted :
   exists p x, fault_hits p x /\ snd (seal_v0 p (Some x)) <> RErr.
 Proof. exists (ex_plan false), (mkFault IndexTmp 9 1). split. { left. split; [reflexivity|simpl; lia]. } vm_compute. discriminate. Qed.
+
+(* ================================================================================================
+   Extension (round 5): ANY set of failing writes, and the push sites of the block generators.
+   Objects (ModelGen.v): [fset] = which Write calls fail (per file, 1-based call number -> bytes
+   stored before the error): a transient failure is a singleton ([fs_single], [fs_kth]), a
+   persistent one an upper set ([fs_persistent]), and the theorems quantify over ALL sets;
+   [seal_fs p fl] = Seal + Release under the set fl; [oracle] = which calls of a generator's push
+   function return an error; [gen_lids], [gen_ids], [gen_tokens], [gen_token_table] = the
+   generators of frac/disk_blocks_producer.go with every push site transcribed;
+   [propagated o tr r] = every failed push was the last call made and r is the error, and r is an
+   error only if the last call failed.
+   ================================================================================================ *)
+
+(* Some write of the seal is in the set (whatever else is in it, before or after): Seal returns an
+   error, nothing is renamed onto .index, nothing is removed, and a failed sorted-docs write does
+   not publish .sdocs.  C08_fault_not_published is the instance fl = one write. *)
+Theorem C08_faultset_not_published :
+  forall p fl, fs_hits p fl ->
+    snd (seal_fs p fl) = RErr
+    /\ forallb no_publish_op (fst (seal_fs p fl)) = true
+    /\ ((skip_sort p = false /\ exists k, (1 <= k <= length (sd_writes p))%nat /\ fl SdocsTmp k <> None)
+        -> ~ In (ORename SdocsTmp Sdocs) (fst (seal_fs p fl))).
+Proof. exact faultset_not_published. Qed.
+Print Assumptions C08_faultset_not_published.
+
+(* Under any fault set: an error never publishes or removes anything; what reached the disk is a
+   (torn) prefix of the fault-free sequence, the whole sequence iff no error; an original is removed
+   only in a run without error. *)
+Theorem C08_faultset_error_publishes_nothing :
+  forall p fl, snd (seal_fs p fl) = RErr -> forallb no_publish_op (fst (seal_fs p fl)) = true.
+Proof. exact err_no_publish_fs. Qed.
+Print Assumptions C08_faultset_error_publishes_nothing.
+
+Theorem C08_faultset_is_prefix :
+  forall p fl, tprefix (fst (seal_fs p fl)) (seal_ops p)
+               /\ (snd (seal_fs p fl) = ROk -> fst (seal_fs p fl) = seal_ops p).
+Proof. exact seal_fs_spec. Qed.
+Print Assumptions C08_faultset_is_prefix.
+
+Theorem C08_faultset_originals_last :
+  forall p fl a f b, fst (seal_fs p fl) = a ++ OUnlink f :: b -> snd (seal_fs p fl) = ROk.
+Proof. exact originals_last_fs. Qed.
+Print Assumptions C08_faultset_originals_last.
+
+(* A crash anywhere in a seal that runs under any fault set, the interrupted write torn, then any
+   power loss: every document is served after restart. *)
+Theorem C08_faultset_crash_atomic :
+  forall p fl s0 l keep,
+    inv p s0 -> tprefix l (fst (seal_fs p fl)) ->
+    let s := power_loss keep (run l s0) in
+    (inv p s \/ sealed_state p s) /\ serves_all p (load s) = true.
+Proof. exact crash_atomic_fs. Qed.
+Print Assumptions C08_faultset_crash_atomic.
+
+(* Every push site of every block generator returns the error of a failed push at once: for ALL
+   inputs (token/LID counts, sizes) and ALL oracles (any set of failing push calls) the generator
+   terminates, a failed push is the last call it makes and its result is the error, and it reports
+   an error only if its last push failed.  (cap = consts.LIDBlockCap, size = consts.IDsBlockSize,
+   rbs = consts.RegularBlockSize in writeSealedFraction; the theorem holds for every positive value.) *)
+Theorem C08_every_push_error_propagates :
+  (forall cap fields o, (0 < cap)%N -> exists tr r, gen_lids cap fields o = Some (tr, r) /\ propagated o tr r)
+  /\ (forall size n o, (0 < size)%N -> exists tr r, gen_ids size n o = Some (tr, r) /\ propagated o tr r)
+  /\ (forall rbs fields o, exists tr r, gen_tokens rbs fields o = Some (tr, r) /\ propagated o tr r)
+  /\ (forall fields o, propagated o (fst (gen_token_table fields o)) (snd (gen_token_table fields o))).
+Proof. exact every_push_error_propagates. Qed.
+Print Assumptions C08_every_push_error_propagates.
+
+(* the spec checker holds on the model's outputs for the new case kinds *)
+Theorem C08_spec_holds_on_model_faultset :
+  forall p fl pers,
+    let r := seal_fs p (fs_index fl pers) in
+    case_spec_ok (CFaultSet p fl pers (res_is_err (snd r)) (writes_of IndexTmp (fst r))) = true.
+Proof. exact spec_faultset_model. Qed.
+Print Assumptions C08_spec_holds_on_model_faultset.
+
+Theorem C08_spec_holds_on_model_sealt :
+  forall p init k,
+    inv p (init_fs init) ->
+    let r := seal_fs p (fs_kth k) in
+    let s := run (fst r) (init_fs init) in
+    case_spec_ok (CSealT p init k (res_is_err (snd r)) (names s) (intact (s Docs) && intact (s Meta))) = true.
+Proof. exact spec_sealt_model. Qed.
+Print Assumptions C08_spec_holds_on_model_sealt.
+
+Theorem C08_spec_holds_on_model_gen :
+  (forall cap fields fl pers, (0 < cap)%N ->
+     exists tr r, gen_lids cap fields (oracle_of fl pers) = Some (tr, r)
+                  /\ case_spec_ok (CGenLIDs cap fields fl pers tr (res_is_err r)) = true)
+  /\ (forall size n fl pers, (0 < size)%N ->
+     exists tr r, gen_ids size n (oracle_of fl pers) = Some (tr, r)
+                  /\ case_spec_ok (CGenIDs size n fl pers tr (res_is_err r)) = true)
+  /\ (forall rbs fields fl pers,
+     exists tr r, gen_tokens rbs fields (oracle_of fl pers) = Some (tr, r)
+                  /\ case_spec_ok (CGenTokens rbs fields fl pers tr (res_is_err r)) = true)
+  /\ (forall fields fl pers,
+     let m := gen_token_table fields (oracle_of fl pers) in
+     case_spec_ok (CGenTable fields fl pers (fst m) (res_is_err (snd m))) = true).
+Proof. exact spec_gen_all. Qed.
+Print Assumptions C08_spec_holds_on_model_gen.
+
+(* ---------------- non-vacuity and documentation (extension) ---------------- *)
+(* fault sets that hit: a transient one, a persistent one, and an arbitrary one *)
+Example C08_faultset_witness :
+  fs_hits (ex_plan false) (fs_kth 9) /\ fs_hits (ex_plan false) (fs_persistent IndexTmp 9 0)
+  /\ fs_hits (ex_plan true) (fs_index [(3, 1%N); (11, 0%N)] (Some 12))
+  /\ fs_hits (ex_plan false) (fs_single (mkFault SdocsTmp 1 10)).
+Proof.
+  split; [right; exists 9; split; [simpl; lia|discriminate]|].
+  split; [right; exists 9; split; [simpl; lia|discriminate]|].
+  split; [right; exists 3; split; [simpl; lia|discriminate]|].
+  left. split; [reflexivity|]. exists 1. split; [simpl; lia|discriminate].
+Qed.
+
+(* on the example plan the single fault of Model.v and the singleton fault set give the same run,
+   and a persistent fault the same run as the transient one at its first write *)
+Example C08_faultset_instances :
+  seal (ex_plan false) (Some (mkFault IndexTmp 9 1)) = seal_fs (ex_plan false) (fs_single (mkFault IndexTmp 9 1))
+  /\ seal_fs (ex_plan false) (fs_persistent IndexTmp 9 1) = seal_fs (ex_plan false) (fs_single (mkFault IndexTmp 9 1))
+  /\ seal (ex_plan false) None = seal_fs (ex_plan false) fs_none.
+Proof. vm_compute. repeat split. Qed.
+
+(* the generators: a field of 10 LIDs in tokens of 4+6 and a second field of 3, capacity 4 *)
+Definition ex_lids : list (list N) := [[4; 6]; [3]]%N.
+Example C08_gen_lids_runs :
+  gen_lids 4 ex_lids never
+  = Some ([mkLB 4 1 true false 1 1; mkLB 4 1 false false 2 2; mkLB 2 1 true true 3 2; mkLB 3 1 true false 3 3], ROk)
+  /\ gen_lids 4 ex_lids (oracle_of [1] None)
+     = Some ([mkLB 4 1 true false 1 1; mkLB 4 1 false false 2 2], RErr).
+Proof. vm_compute. split; reflexivity. Qed.
+
+(* The seeded change C08-m9 ("hoisted" error check in getLIDsBlockGenerator), kept as
+   [gen_lids_hoisted]: the push of the second block (a FULL block inside the token loop) fails once,
+   the next push of the same field succeeds and overwrites the error: the generator goes on, pushes
+   all four blocks and returns no error - [propagated] is violated.  A persistent failure from
+   the same call on is still reported by the hoisted variant, which is why only a single
+   transient failure on a corpus with a full LID block shows the difference. *)
+Example C08_hoisted_error_refuted :
+  exists tr, gen_lids_hoisted 4 ex_lids (oracle_of [1] None) = Some (tr, ROk)
+             /\ length tr = 4%nat /\ ~ propagated (oracle_of [1] None) tr ROk
+             /\ (exists tr', gen_lids_hoisted 4 ex_lids (oracle_of [] (Some 1)) = Some (tr', RErr)).
+Proof.
+  eexists. split; [vm_compute; reflexivity|]. split; [reflexivity|]. split.
+  - intros [P _]. destruct (P 1%nat) as [X _]; [simpl; lia|reflexivity|discriminate].
+  - eexists. vm_compute. reflexivity.
+Qed.
+
+Example C08_gen_ids_tokens_run :
+  gen_ids 4 9 (oracle_of [] None) = Some ([4; 4; 1]%N, ROk)
+  /\ gen_ids 4 8 (oracle_of [1] None) = Some ([4; 4]%N, RErr)
+  /\ gen_tokens 16384 [(10, 3); (40000, 7)]%N never
+     = Some ([mkTB 0 true 10 1 3; mkTB 1 true 40000 4 2; mkTB 1 false 40000 6 2; mkTB 1 false 40000 8 2;
+              mkTB 1 false 40000 10 1], ROk)
+  /\ gen_token_table [(true, 2); (false, 0); (true, 1)]%N (oracle_of [1] None) = ([(0%nat, 2%N); (2%nat, 1%N)], RErr).
+Proof. vm_compute. repeat split. Qed.
